@@ -54,6 +54,12 @@ CHECKS = {
         text='PARTIAL. The six clauses (agreement on closed histories, four-point minus the closing cycle, cut independence, residue identity, no-tie equality, containment) are stated in full as Lean propositions but NOT proved; each is decided on the implementation by an executable Lean predicate over random tie-rich histories, every cut of each period, and all histories of length <= 6 over 4 values (quick) / <= 8 over 5 (thorough). Proved for all histories: a history starting at its maximum is counted by the repeating-history method exactly as by the forward pass of range-pair counting (so range-pair = repeating count ++ backward-pass cycles), and with an odd number of reversals rainflow and range-pair count the same total.',
         note='Trusted: Lean kernel + standard axioms for the supporting theorems; the six clause statements are tested, not proved; models tied to /repo/src by the exact correspondence of check C02.',
         ref='§5 C04'),
+    'C09': dict(
+        engine='formula',
+        technique='Lean 4 proof over the reals (field_simp / ring / linarith) about definitions REGENERATED from the Python source on every run by harness/translate.py, plus translation validation at Float',
+        text='The three correction functions are translated from src/ffpack/lcc/meanStressCorrection.py into one generic-scalar Lean definition each on every run. Theorems at the reals, for every admissible range, strength and n >= 1: Goodman sa/s + sm/su = 1/n, Soderberg sa/s + sm/sy = 1/n, Gerber n*sa/s + (n*sm/su)^2 = 1; value sa at zero mean and n = 1; degree-one homogeneity; growth with n and with the mean stress; Gerber <= Goodman <= Soderberg for sy <= su. A change of the Python formula changes the generated text and the proofs are re-checked; the defining equations are also evaluated on the implementation (failing-input search) and the raise-guards are compared with the generated _ok predicate.',
+        note='Trusted: Lean kernel + standard axioms + Mathlib; harness/translate.py (validated each run: Float instance of the generated text vs the Python function, 1e-11 relative, and guard outcome); real arithmetic stands for binary64 (residuals checked at 1e-9); isinstance/shape guards are not modelled.',
+        ref='§5 C09'),
 }
 
 NOT_YET = {}
